@@ -505,7 +505,20 @@ def check_locks_released(repo: Repo, rep: Report) -> None:
                 roots = [a.test] if nd.kind == "test" and hasattr(a, "test") else [a]
                 return nd.kind in ("stmt", "finally") and any(isinstance(r, ast.Call) and norm(r.func) == f"{recv}.release" for rt in roots for r in ast.walk(rt))
 
-            ok, path = cfg.must_pass(srcs[0], via, {cfg.exit.id, cfg.raise_exit.id})
+            # from the statements that follow a successful acquire (what acquire() itself raises leaves nothing held)
+            ok, path = True, []
+            for nxt, lab in srcs[0].succ:
+                if lab == "exc":
+                    continue
+                if via(nxt):
+                    continue
+                if nxt.id in (cfg.exit.id, cfg.raise_exit.id):
+                    ok, path = False, [srcs[0], nxt]
+                    break
+                ok, path = cfg.must_pass(nxt, via, {cfg.exit.id, cfg.raise_exit.id})
+                if not ok:
+                    path = [srcs[0]] + path
+                    break
             where = " -> ".join(f"{p.line}" for p in path[:8] if p.line)
             rep.check(ok, "lock-released", fq, st, f"{recv} is acquired and there is a way out of {fn.name}() that does not release it (lines {where}{' -> raise' if path and path[-1] is cfg.raise_exit else ''}): when the code in between raises - trigger() swallows what a notification handler raises - the lock stays held and every later handler, bind() or unbind() of any association sharing it blocks for ever, so the association outcome changes", mod=m, node=c)
     rep.counters["bare lock.acquire() sites"] = n
